@@ -151,6 +151,21 @@ pub fn state_monitors(props: &[&str], s: &Sim) -> Vec<Violation> {
         }
     }
 
+    if has(props, "C03") {
+        // LST minted for a native-chain recipient stays destined to that recipient through every IBC
+        // outcome and recovery: delivered to it, in flight to it, or refundable for it
+        for (r, sent) in &s.g.lst_sent {
+            let got = s.g.lst_acked.get(r).copied().unwrap_or(0) + flight_to(&s.w, &lst, r) + refundable_to(s, &lst, r);
+            if got != *sent {
+                v.push(viol(
+                    "C03",
+                    "state.lst.recipient_conservation",
+                    format!("{sent} LST were minted for native recipient {r}; delivered {} + in flight {} + refundable {}", s.g.lst_acked.get(r).copied().unwrap_or(0), flight_to(&s.w, &lst, r), refundable_to(s, &lst, r)),
+                ));
+            }
+        }
+    }
+
     if has(props, "C05") || has(props, "C06") {
         let qb = s.w.batches();
         if has(props, "C05") {
